@@ -25,6 +25,8 @@ re-assembled by hand in the proof module (Lemmas/SrcArm.lean) and is part of wha
 * `round(e)` with one argument is Python's round-half-to-even of the exact value of `e` (an integer), and
   `int(round(e))` is read as `round(e)`;
 * `name.argmax()` becomes the parameter `name_argmax`;
+* a local bound exactly once is read through to its defining expression (except the locals the fragments are about),
+  local names are mapped to canonical ones given by the extractor, and parameters are listed alphabetically;
 * a fragment marked `int` contains only `+`, `-`, `*`, integer literals, names and comparisons; it is emitted over
   `Int` (index arithmetic), a test as a `Bool` (`decide`).
 """
@@ -148,7 +150,7 @@ class Fn:
                         f"else if f_ % 2 = 0 then (f_ : Rat) else ((f_ + 1 : Int) : Rat))")
             if isinstance(e.func, ast.Attribute) and e.func.attr == "argmax" and not args and not e.keywords \
                     and isinstance(e.func.value, ast.Name):
-                return self.param(e.func.value.id + "_argmax")
+                return self.param(self.rename.get(e.func.value.id, e.func.value.id) + "_argmax")
             if f == "int" and len(args) == 1:
                 x = self.expr(args[0], env)
                 return f"(if {x} < 0 then ((({x}).ceil : Int) : Rat) else ((({x}).floor : Int) : Rat))"
@@ -373,11 +375,14 @@ def fragment(fn, kind, name, k=0):
     raise Untranslatable("fragment kind " + kind)
 
 
-def emit_fragments(repo, o, path, fname, cls, specs):
+def emit_fragments(repo, o, path, fname, cls, specs, rename=None, keep=()):
     """specs: (lean name, kind, name, k, int?, comment).  A piece outside the subset leaves a comment, so that
-    exactly the theorems about it stop checking."""
+    exactly the theorems about it stop checking.  `rename` maps the function's local names to the canonical names the
+    proofs use; locals bound exactly once (other than `keep`) are read through (`translate.expand`); the parameters
+    of a fragment are emitted in alphabetical order, so that renaming a local, naming an intermediate value or
+    commuting a sum does not change the generated signature."""
     import os
-    from .translate import parse, find_func
+    from .translate import parse, find_func, expand
     try:
         tree, _src = parse(os.path.join(repo, path))
         fn = find_func(tree, fname, cls)
@@ -387,13 +392,15 @@ def emit_fragments(repo, o, path, fname, cls, specs):
     for lean, kind, name, k, as_int, comment in specs:
         try:
             node, is_cond = fragment(fn, kind, name, k)
-            t = Fn(fn)
+            node = expand(node, fn, tree, keep=tuple(keep))
+            t = Fn(fn, rename=rename)
             body = t.cond(node, {}) if is_cond else t.expr(node, {})
             if "MASK:" in body:
                 raise Untranslatable("a mask escaped into an arithmetic position")
             typ = "Rat"
             if as_int:
                 body, typ = _to_int(body), "Int"
+            t.params.sort()
             ps = " ".join(t.params)
             binder = f" ({ps} : {typ})" if t.params else ""
             if is_cond:
